@@ -1,0 +1,30 @@
+//go:build verif
+// +build verif
+
+package core
+
+import (
+	"com.tuntun.rangers/node/src/middleware"
+	"com.tuntun.rangers/node/src/middleware/log"
+	"com.tuntun.rangers/node/src/middleware/notify"
+)
+
+// Verification hooks (C07, build tag verif only): the two GameExecutor paths by which a client / gateway
+// transaction reaches the transaction pool, callable without a block chain or a network connection.
+// InitMiddleware, InitService and InitExecutors must have run, and AccountDBManagerInstance must hold a
+// latest state (SetLatestStateDB) whose Height is the height the verification is to use.
+
+func verifC07Executor() *GameExecutor {
+	return &GameExecutor{logger: log.GetLoggerByIndex(log.GameExecutorLogConfig, "verif")}
+}
+
+// VerifC07RunWrite is GameExecutor.runWrite, the handler AccountDBManager calls for every queued
+// "/tx" (gateway, JSON-RPC) message.
+func VerifC07RunWrite(msg *notify.ClientTransactionMessage) {
+	verifC07Executor().runWrite(&middleware.Item{Value: msg})
+}
+
+// VerifC07Write is the ClientTransactionWrite subscription (GameExecutor.HandleNetMessage -> write).
+func VerifC07Write(msg *notify.ClientTransactionMessage) {
+	verifC07Executor().HandleNetMessage(notify.ClientTransactionWrite, msg)
+}
